@@ -938,6 +938,14 @@ impl<K: Kind> Scenario for Bf<K> {
                         }
                         // handles held by reusable substitution objects (`mksubst`) are live references too
                         for v in self.state.values() {
+                            if let Some(ballast) = v.downcast_ref::<Vec<K::F>>() {
+                                for f in ballast {
+                                    let (root, inner) = f.with_manager_shared(|m, e| (K::tree(m, e), matches!(m.get_node(e), oxidd::Node::Inner(_))));
+                                    if inner {
+                                        *expected.entry(strip_neg(&root)).or_insert(0) += 1;
+                                    }
+                                }
+                            }
                             if let Some((sub, _, _)) = v.downcast_ref::<(oxidd::Subst<K::F>, Vec<u32>, Vec<TT>)>() {
                                 use oxidd_core::util::Substitution;
                                 for (_, f) in sub.pairs() {
